@@ -87,8 +87,10 @@ def do_run(name, props=None):
     try:
         rc0, _, c_repo = constants_of("/repo")
         rc1, log1, c_wt = constants_of(wt)
-        same = (rc0 == rc1 == 0) and c_repo == c_wt
-        res["constants"] = {"same_as_repo": same, "detail": "" if same else (log1 or "generated files differ")}
+        same = (rc0 == rc1 == 0) and c_repo.get("Constants.v") == c_wt.get("Constants.v")
+        how = [l for l in log1.splitlines() if "pinned" in l or "observed" in l or "derived" in l]
+        res["constants"] = {"same_as_repo": same, "detail": "" if same else (log1 or "generated files differ"),
+                            "not_read_from_the_usual_place": how}
         print(name, "constants:", "same" if same else "DIFFERENT " + res["constants"]["detail"][:200])
         for prop in props:
             r = sh("cd %s && VERIF_EVIDENCE_DIR=%s VERIF_REPO=%s ./check %s --tier quick --no-build"
